@@ -1,5 +1,5 @@
 (* C16 — Resume policy governs the algorithm service's lifetime; restart only when allowed.  Per-reconcile theorems. *)
-From KV Require Import Base.Prelude Base.Cond Model.World Proofs.WorldPlan Proofs.WorldInv2 Proofs.WorldInv5 Proofs.WorldQuiet Proofs.WorldSucc.
+From KV Require Import Base.Prelude Base.Cond Model.World Proofs.WorldPlan Proofs.WorldInv2 Proofs.WorldInv5 Proofs.WorldQuiet Proofs.WorldSucc Proofs.WorldRestart.
 Open Scope Z_scope.
 
 (* A suggestion reconcile that sees the Suggestion Succeeded performs no algorithm call and nothing but the deletion
@@ -63,3 +63,17 @@ Theorem C16_succeeded_only_after_completion : forall c acts s,
   c_resume c = Never /\ exists e, w_exp (run c acts) = Some e /\ e_completed (e_st e) = true.
 Proof. exact succeeded_implies_verdict. Qed.
 Print Assumptions C16_succeeded_only_after_completion.
+
+(* Restart progress (after the repair of F18): whatever edits of maxTrialCount a history contains, and for every resume
+   policy, when the controllers come to rest with a finished environment the experiment carries a verdict again -- a
+   restarted experiment cannot stay without algorithm service and without new trials.  (Assumption: distinct assignment
+   names.)  Together with C01_max_trials (at most the CURRENT maxTrialCount trials) this is "new trials are created up to the
+   new budget". *)
+Theorem C16_restart_progress : forall c acts e m,
+  valid_cfg c -> no_teardown acts ->
+  quiescent (run c acts) -> env_done (run c acts) ->
+  w_exp (run c acts) = Some e -> e_max e = Some m ->
+  (forall s, w_sug (run c acts) = Some s -> NoDup (ss_names (s_st s))) ->
+  e_completed (e_st e) = true.
+Proof. exact no_wedge_reachable_all. Qed.
+Print Assumptions C16_restart_progress.
